@@ -4,6 +4,8 @@ import (
 	"fmt"
 	"go/token"
 	"go/types"
+	"math/big"
+	"strings"
 
 	"golang.org/x/tools/go/ssa"
 )
@@ -21,7 +23,7 @@ func init() {
 			"when it has no waiters AND no holders, and a fresh entry is inserted before the mutex is released; (6) read weight 1, write weight rwRatio = capacity, " +
 			"release returns the weight acquire took. NOT decided: that admitted callers overlap only as allowed under every schedule (follows informally from 1-5), timing ('at once'), rwRatio<1.",
 		Assumptions: []string{"container/list and sync behave as documented", "paths: loops are explored for the first and one generalised iteration"},
-		Floors:      map[string]int{"C01.guarded-by": 6, "C01.lock-balance": 8, "C01.grant-guard": 2, "C01.grant-triple": 1, "C01.cancel-path": 1, "C01.entry-delete": 1, "C01.entry-insert": 1, "C01.weights": 5},
+		Floors:      map[string]int{"C01.guarded-by": 6, "C01.lock-balance": 8, "C01.grant-guard": 2, "C01.grant-triple": 1, "C01.cancel-path": 1, "C01.entry-delete": 1, "C01.entry-insert": 1, "C01.entry-idle": 4, "C01.weights": 5},
 		Run:         runC01,
 	})
 }
@@ -86,6 +88,7 @@ func runC01(c *Ctx) {
 			s.checkGrants(t, name)
 			s.checkCancel(t, name)
 			s.checkEntryLife(t, name)
+			s.checkEntryIdle(t, name, entry)
 		}
 		if touches && balanced {
 			c.holds("C01.lock-balance", name, entry.Pos(), fmt.Sprintf("%d paths end with the mutex released", len(traces)))
@@ -575,6 +578,96 @@ func (s *semapCtx) checkEntryLife(t *Trace, name string) {
 			}
 		}
 	}
+}
+
+// checkEntryIdle: an acquire that fails (returns no *Weighted) must not leave behind the fresh entry it
+// inserted for the key: nothing will ever release that entry, so the map would keep an idle entry forever.
+// Paths that are only feasible for rwRatio < 1 (a configuration in which no acquire can ever succeed) are
+// outside the property and are skipped; the test uses the linear form of each branch condition.
+func (s *semapCtx) checkEntryIdle(t *Trace, name string, entry *ssa.Function) {
+	c := s.c
+	if t.End != EndReturn || len(t.Ret) != 2 {
+		return
+	}
+	ins := -1
+	for i, e := range t.Events {
+		if e.Kind == EvMapUpdate {
+			if _, ok := symFieldBase(e.Addr, s.m); ok {
+				ins = i
+			}
+		}
+		if e.Kind == EvMapDelete && ins >= 0 {
+			if _, ok := symFieldBase(e.Addr, s.m); ok {
+				ins = -1
+			}
+		}
+	}
+	if ins < 0 {
+		return
+	}
+	if !t.Ret[0].isNilConst() {
+		c.holds("C01.entry-idle", name, entry.Pos(), "a fresh entry stays only on paths that return it held")
+		return
+	}
+	facts := t.factsBefore(len(t.Events))
+	// container/list contract: the zero List of the fresh entry is empty until something is pushed
+	mutated := false
+	for _, e := range t.Events {
+		if isListMutation(e) {
+			mutated = true
+		}
+		if b, ok := s.listCallOn(e, "Len"); ok && !mutated && b.root().Kind == KAlloc {
+			r := e.Res
+			if hasFact(facts, func(f Fact) bool {
+				z, isz := f.Y.intConst()
+				return f.X.Key() == r.Key() && isz && z == 0 && (f.Op == token.NEQ || f.Op == token.GTR)
+			}) {
+				return
+			}
+		}
+	}
+	// feasibility under rwRatio >= 1: each branch condition X op Y as the linear form d = X - Y over rwRatio
+	for _, f := range facts {
+		d := lf(f.X).add(lf(f.Y), -1)
+		var min, max *big.Int = new(big.Int).Set(d.c), new(big.Int).Set(d.c)
+		okForm := true
+		for k, a := range d.coef {
+			switch {
+			case !strings.Contains(k, "rwRatio"):
+				okForm = false
+			case a.Sign() > 0:
+				min.Add(min, a)
+				max = nil
+			default:
+				if max != nil {
+					max.Add(max, a)
+				}
+				min = nil
+			}
+		}
+		if !okForm || len(d.coef) > 1 {
+			continue
+		}
+		switch f.Op {
+		case token.LSS:
+			if min != nil && min.Sign() >= 0 {
+				return
+			}
+		case token.LEQ:
+			if min != nil && min.Sign() > 0 {
+				return
+			}
+		case token.GTR:
+			if max != nil && max.Sign() <= 0 {
+				return
+			}
+		case token.GEQ:
+			if max != nil && max.Sign() < 0 {
+				return
+			}
+		}
+	}
+	c.violated("C01.entry-idle", name, t.Events[ins].Pos, "an acquire that fails leaves the fresh entry it inserted for the key in the map: the entry has no holder and no waiter, and only a release ever deletes entries, so the map keeps an idle entry for that key forever", c.witness(t, len(t.Events)-1)...)
 }
 
 // checkWeights: rule 6 — per public method the weight that reaches the semaphore.
